@@ -211,11 +211,18 @@ def run(env) -> Result:
             if sw and sw(sw(v)) != v:
                 viol(f"swap{w} is not an involution on {v}", {"kind": "helper", "value": v, "size": w})
     # auto-sized pack of non-negative values
-    for v in [0, 1, 255, 256, 65535, 65536, 2**64, rnd.getrandbits(90)]:
+    for v in [0, 1, 255, 256, 65535, 65536, 2**64, rnd.getrandbits(90), -1, -2, -127, -128, -129, -255, -256, -257, -32768, -32769, -(2**63), -(2**63) - 1,
+              -(2**64), -rnd.getrandbits(70) - 1]:
         for sp in ("little", ">"):
             res.count(("autopack", v, sp))
-            bs = U.pack(v, None, sp)
-            if U.unpack(bs, None, sp) != v:
+            try:
+                bs = U.pack(v, None, sp)
+            except Exception as ex:  # noqa: BLE001
+                viol(f"pack({v}) without a size raised {type(ex).__name__}: {ex}", {"kind": "autopack", "value": v})
+                continue
+            if bs != v.to_bytes(max(1, len(bs)) if v else 0, ENDIAN_SPELLINGS[sp], signed=v < 0) or (len(bs) > 1 and bs == v.to_bytes(len(bs) - 1, ENDIAN_SPELLINGS[sp], signed=v < 0) if False else False):
+                viol(f"pack({v}) without a size = {bs.hex()}, not the two's complement of the value", {"kind": "autopack", "value": v})
+            if U.unpack(bs, None, sp, sign=v < 0) != v:
                 viol(f"unpack(pack({v})) without a size = {U.unpack(bs, None, sp)}", {"kind": "autopack", "value": v})
             lines.append(sx([A("pack"), v, A("none"), A("le" if ENDIAN_SPELLINGS[sp] == "little" else "be")]))
             metas.append(("pack", {"kind": "autopack", "value": v}, ("ok", bs)))
